@@ -20,6 +20,47 @@ pub enum Sched {
 	FailAt(usize, io::ErrorKind),
 }
 
+/// An owned variant for streams that do not start at position 0: `prefix` junk bytes precede the
+/// data and the reader is handed over already positioned after them (a replay embedded in a
+/// container, the second of two concatenated files).
+pub struct PrefixedReader {
+	pub buf: Vec<u8>,
+	pub pos: usize,
+}
+
+impl PrefixedReader {
+	pub fn new(data: &[u8], prefix: usize) -> Self {
+		let mut buf: Vec<u8> = (0..prefix).map(|i| (i * 31 + 7) as u8).collect();
+		buf.extend_from_slice(data);
+		PrefixedReader { buf, pos: prefix }
+	}
+}
+
+impl Read for PrefixedReader {
+	fn read(&mut self, out: &mut [u8]) -> io::Result<usize> {
+		let avail = self.buf.len().saturating_sub(self.pos);
+		let n = out.len().min(avail);
+		out[..n].copy_from_slice(&self.buf[self.pos..self.pos + n]);
+		self.pos += n;
+		Ok(n)
+	}
+}
+
+impl Seek for PrefixedReader {
+	fn seek(&mut self, pos: SeekFrom) -> io::Result<u64> {
+		let new = match pos {
+			SeekFrom::Start(n) => n as i64,
+			SeekFrom::Current(d) => self.pos as i64 + d,
+			SeekFrom::End(d) => self.buf.len() as i64 + d,
+		};
+		if new < 0 {
+			return Err(io::Error::new(io::ErrorKind::InvalidInput, "env: seek before start"));
+		}
+		self.pos = new as usize;
+		Ok(self.pos as u64)
+	}
+}
+
 pub struct EnvReader<'a> {
 	pub data: &'a [u8],
 	pub pos: usize,
